@@ -106,6 +106,35 @@ class TestCommandStack(object):
         self.stack.undo()
         assert len(self.session.data_collection) == 1
 
+    def test_remove_data_undo_restores_position(self):
+        dc = self.session.data_collection
+        d1, d2, d3 = core.Data(x=[1]), core.Data(x=[2]), core.Data(x=[3])
+        dc.extend([d1, d2, d3])
+
+        self.stack.do(c.RemoveData(data=d1))
+        assert dc.data == [d2, d3]
+
+        self.stack.undo()
+        assert dc.data == [d1, d2, d3]
+
+        self.stack.redo()
+        assert dc.data == [d2, d3]
+
+    def test_add_remove_data_without_effect_undo(self):
+        # adding a dataset that is already present, or removing one that is
+        # absent, changes nothing - and neither should undoing it
+        dc = self.session.data_collection
+        d1, d2 = core.Data(x=[1]), core.Data(x=[2])
+        dc.append(d1)
+
+        self.stack.do(c.AddData(data=d1))
+        self.stack.undo()
+        assert dc.data == [d1]
+
+        self.stack.do(c.RemoveData(data=d2))
+        self.stack.undo()
+        assert dc.data == [d1]
+
     def test_new_data_viewer(self):
         cmd = c.NewDataViewer(viewer=None, data=None)
         v = self.stack.do(cmd)
